@@ -495,6 +495,8 @@ def configs(tier):
         add("wide-32on16-K4", wbw=32, pw=16, K=4)
         add("wide-32on8-K4", wbw=32, pw=8, K=4)
         add("wide-64on16-K3", wbw=64, pw=16, K=3, naddr=2)
+        add("narrow-8on64-K3", wbw=8, pw=64, K=3, max_states=6_000_000)          # the extreme ratios of the statement: 1/8 and 8
+        add("wide-64on8-K2", wbw=64, pw=8, K=2, naddr=2, max_states=6_000_000)
         add("wide-32on16-K3-base0x40", wbw=32, pw=16, K=3, base_address=0x40)
         add("wide-32on16-K4-readaborts", wbw=32, pw=16, K=4, aborts=True, abort_ops="R")
         add("wide-32on8-K3-readaborts", wbw=32, pw=8, K=3, aborts=True, abort_ops="R")
